@@ -222,7 +222,7 @@ def run(ctx, report: Report) -> None:
             dfs(m, [m])
 
     # ---- R3 ----------------------------------------------------------------------------------------------
-    r3 = report.rule('C16-R3', 'importing has no visible effect', floor=10)
+    r3 = report.rule('C16-R3', 'importing has no visible effect', floor=3)
     effect_calls = {'print', 'warnings.warn', 'warn', 'warn_deprecated', 'util.warn_deprecated', 'sys.stdout.write',
                     'sys.stderr.write', 'logging.warning', 'logging.info'}
     import_consts = []
